@@ -70,7 +70,7 @@ Qed.
 
 Lemma plan_create_mt cf st ts sug add : mt (snd (plan_create cf st ts sug add)) = true -> mt st = true.
 Proof.
-  unfold plan_create. destruct sug as [s|]; [|auto]. destruct (s_is (s_st s) SFailed); [|auto].
+  unfold plan_create. destruct sug as [s|]; [|auto]. destruct (s_is (s_st s) SFailed); [|destruct (_ && _); auto].
   cbn [snd]. unfold mt, with_conds. cbn [es_conds]. unfold emark_verdict, mark.
   rewrite get_set_other by discriminate. rewrite get_turn_off_other by discriminate. auto.
 Qed.
@@ -89,6 +89,7 @@ Proof.
   unfold plan_trials. destruct (_ <? _); [reflexivity|]. destruct (_ <? _); [|reflexivity].
   destruct (0 <? _); [|reflexivity].
   unfold plan_create. destruct sug as [s|]; [|reflexivity]. destruct (s_is (s_st s) SFailed); [reflexivity|].
+  destruct (s_is (s_st s) SSucceeded && _); [cbn [fst]; destruct (s_restarting (s_st s)); reflexivity|].
   cbn [fst]. rewrite forallb_app. destruct (s_requests s =? _); cbn [forallb nostatus fst andb];
     (induction (if _ <? _ then _ else _) as [|n l IH]; [reflexivity|exact IH]).
 Qed.
@@ -358,8 +359,7 @@ Proof.
   rewrite <- C. eapply (quiescent_completed (run c acts) e m); eauto.
   - rewrite Cf. destruct V; assumption.
   - rewrite Cf. destruct V as (_&V2&_). rewrite <- Mx, Hm in V2. exact V2.
-  - intros s Hs. split; [auto|].
-    destruct (s_is (s_st s) SSucceeded) eqn:S; [|reflexivity].
+  - intros s Hs. split; [auto|]. intro S. exfalso.
     destruct (s2_sug _ S2 _ Hs S) as (e'&He'&C'). rewrite He in He'. inversion He'; subst. congruence.
 Qed.
 
